@@ -1,0 +1,24 @@
+use super::{
+    Identifier,
+    IdentifierRef,
+};
+use crate::registry::Registry;
+
+impl<R> Identifier<R>
+where
+    R: Registry,
+{
+    pub(crate) fn verif_capacity(&self) -> usize {
+        self.capacity
+    }
+}
+
+impl<R> IdentifierRef<R>
+where
+    R: Registry,
+{
+    /// Address of the referenced identifier buffer (never dereferenced).
+    pub(crate) fn verif_addr(self) -> usize {
+        self.pointer as usize
+    }
+}
